@@ -48,7 +48,7 @@ def validAt (c : Cert) (now : Nat) : Bool :=
 
 /-! ### the underlying agent -/
 
-inductive Kind | list | add | remove | removeAll | sign | lock | unlock
+inductive Kind | list | add | remove | removeAll | sign | lock | unlock | forward
 deriving DecidableEq, Repr
 
 structure Ident where
@@ -279,6 +279,9 @@ inductive Op
   | uAdd (id : Ident)
   | uRemove (b : Blob)
   | uRemoveAll
+  /-- a raw request the shim does not interpret (the test agent echoes it behind the byte 0xAA; a
+      failure reply is the single byte 5) -/
+  | forward (req : Bytes)
 deriving Repr
 
 inductive Out
@@ -287,6 +290,8 @@ inductive Out
   | listing (ids : List Ident)
   | signers (bs : List Blob)
   | signed (r : SignRes)
+  /-- reply to a raw request, byte for byte -/
+  | forwarded (reply : Bytes)
 deriving DecidableEq, Repr
 
 /-- comment of an underlying certificate in a listing -/
@@ -411,5 +416,13 @@ def step (s : State) (now : Nat) (f : Faults) : Op → State × Out
     match s.u.clearIdents with
     | none => (s, .err)
     | some u' => ({ s with u := u' }, .ok)
+  | .forward req =>
+    -- `Forward` is not gated by the lock flag: the frame goes to the underlying agent as it is and
+    -- the next frame on the connection comes back as it is
+    if s.u.closed then (s, .err)
+    else match f .forward with
+      | .none => (s, .forwarded (0xAA :: req))
+      | .fail => (s, .forwarded [5])
+      | .drop => ({ s with u := { s.u with closed := true } }, .err)
 
 end Ysshra.Shim
